@@ -20,7 +20,7 @@ _SAFE_BUILTINS = {"frozenset": frozenset, "set": set, "tuple": tuple, "list": li
 
 
 class Folder:
-    def __init__(self, idx: Index, max_depth: int = 6):
+    def __init__(self, idx: Index, max_depth: int = 12):
         self.idx = idx
         self.max_depth = max_depth
         self.init_env: Dict[str, Dict[str, Any]] = {}  # class qualname -> values of __init__ parameters (symbolic runs)
